@@ -58,6 +58,10 @@ type Op struct {
 	HidesCause bool
 	// Unreg: builds a type with no decoder (decodes to an opaque type).
 	Unreg bool
+	// SideIsReference: the side argument is only consulted (Mark's
+	// reference: message and types are recorded), not attached: nothing
+	// of it needs to be retained.
+	SideIsReference bool
 	// QuirkOf, when set, names the sibling op that differs from this one
 	// only by avoiding a documented, test-pinned rendering quirk of the
 	// library (see DESIGN.md §4). Quirk ops are explored in a separate
